@@ -392,6 +392,75 @@ theorem wrong_audience_rejected (l : List String) (hl : "snap" ∉ l)
 
 end
 
+/-! ## 3b. The verdict does not depend on what the instance was shown before
+
+The property makes acceptance a condition on the string and on the clock ("inside its validity window ... up to the
+verifier's fixed clock leeway"); nothing in it mentions earlier presentations.  In the model an instance is its key
+configuration and its `Validation` (`Instance`; the fields of `struct SnapTokenVerifier` and the `&self` receiver of
+`verify` are re-extracted and pinned by `verifier_instance_generated`), and a call leaves it as it was.  The real
+instances are exercised over real time by the harness stream `replay-over-time` (one long-lived instance per
+construction and the running router; byte-identical strings presented while the clock passes `exp + leeway` /
+`nbf - leeway`; oracle keys `C10:over-time:*`). -/
+
+/-- the instance the model describes is the one in the source: three fields (static key, optional JWKS store,
+`Validation`), `verify` takes `&self`.  A field added to carry something from one call to the next (a cache of
+verdicts, a counter, a last-seen time) changes `verifierFields` and this no longer checks. -/
+theorem verifier_instance_generated :
+    verifierFields = [("static_key", "DecodingKey"), ("jwks_store", "Option<Arc<JwksKeyStore>>"),
+      ("validation", "Validation")] ∧ verifyReceiver = "&self" := by decide
+
+/-- a history of calls leaves the instance as it was -/
+theorem run_instance (v : Instance) (hist : List (ParsedToken × Nat)) : (v.run hist).1 = v := by
+  induction hist generalizing v with
+  | nil => rfl
+  | cons p rest ih =>
+    obtain ⟨t, now⟩ := p
+    simp only [Instance.run, Instance.present]
+    exact ih v
+
+/-- **History independence**: after ANY sequence of earlier `verify` calls on the same instance (the same token
+among them or not, accepted or refused, at whatever clock values), the verdict of the next call is the pure
+function of (token, clock). -/
+theorem verdict_history_independent (v : Instance) (hist : List (ParsedToken × Nat)) (t : ParsedToken) (now : Nat) :
+    ((v.run hist).1.present t now).2 = verify v.cfg v.keys t now := by
+  rw [run_instance]
+  rfl
+
+/-- the verdicts of a whole history are the pure function applied to each presentation -/
+theorem run_verdicts (v : Instance) (hist : List (ParsedToken × Nat)) :
+    (v.run hist).2 = hist.map (fun p => verify v.cfg v.keys p.1 p.2) := by
+  induction hist generalizing v with
+  | nil => rfl
+  | cons p rest ih =>
+    obtain ⟨t, now⟩ := p
+    simp only [Instance.run, Instance.present, List.map_cons]
+    rw [ih v]
+
+/-- **Accepted once is not accepted for ever**: whatever the instance was shown before - in particular the very
+same token while it was still inside its window - once `exp + leeway < now` the instance refuses it. -/
+theorem refused_after_expiry_whatever_was_seen (keys : Keys) (hist : List (ParsedToken × Nat)) (t : ParsedToken)
+    (now : Nat) (hnow : leeway ≤ now) (hmax : now + leeway ≤ u64Max) (cs : List (String × JVal))
+    (hpay : t.payload = .obj cs) (n : Nat) (he : lookup cs "exp" = some (.num (.u64 n))) (h : n + leeway < now) :
+    ∃ e, (((⟨generatedValidation, keys⟩ : Instance).run hist).1.present t now).2 = .error e := by
+  rw [verdict_history_independent]
+  have hr := expired_rejected keys t now hnow hmax cs hpay n he h
+  unfold accept at hr
+  cases hv : verify generatedValidation keys t now with
+  | ok c => simp [hv] at hr
+  | error e => exact ⟨e, rfl⟩
+
+/-- **Refused once is not refused for ever**: a token that satisfies the property's condition at `now` is accepted
+at `now`, whatever the instance answered before (e.g. "not yet valid" while the clock was before `nbf - leeway`). -/
+theorem accepted_when_valid_whatever_was_seen (keys : Keys) (hist : List (ParsedToken × Nat)) (t : ParsedToken)
+    (now : Nat) (hnow : leeway ≤ now) (hmax : now + leeway ≤ u64Max) (hs : Spec leeway keys t now) :
+    ∃ c, (((⟨generatedValidation, keys⟩ : Instance).run hist).1.present t now).2 = .ok c := by
+  rw [verdict_history_independent]
+  have ha := (accept_iff_spec keys t now hnow hmax).mpr hs
+  unfold accept at ha
+  cases hv : verify generatedValidation keys t now with
+  | ok c => exact ⟨c, rfl⟩
+  | error e => simp [hv] at ha
+
 /-! ## 4. Non-vacuity, and the defect that was repaired -/
 
 /-- a key configuration: static key 0, a JWKS store with one entry, all keys Ed25519 -/
@@ -429,6 +498,20 @@ example : accept generatedValidation exKeys (exV1 1700003600 (1700000000 + leewa
   decide +kernel
 /-- the granted lifetime of an accepted token: `exp − now` -/
 example : lifetime 1700003600 1700000000500000000 = .granted 3599500000000 := by decide +kernel
+
+/-- the over-time theorems are not vacuous: the same instance accepts a v0 token at the last second of its window
+and, after that presentation, refuses the same token one second later; a v1 token refused one second before
+`nbf - leeway` is accepted from `nbf - leeway` on -/
+example :
+    let v : Instance := ⟨generatedValidation, exKeys⟩
+    let t := exV0 1700000000
+    (v.run [(t, 1700000000 + leeway), (t, 1700000000 + leeway + 1)]).2.map
+      (fun r => match r with | .ok _ => true | .error _ => false) = [true, false] := by decide +kernel
+example :
+    let v : Instance := ⟨generatedValidation, exKeys⟩
+    let t := exV1 1700003600 (1700000000 + leeway)
+    (v.run [(t, 1700000000 - 1), (t, 1700000000)]).2.map
+      (fun r => match r with | .ok _ => true | .error _ => false) = [false, true] := by decide +kernel
 
 /-- **What was wrong before the fix** (jsonwebtoken leaves `validate_nbf` off by default): with
 `validateNbf := false` – the configuration `build_validation()` used to produce – a v1 token whose
